@@ -1,4 +1,6 @@
 import HawkModel.ExprLemmas
+import HawkModel.ExprBlockLemmas
+import HawkModel.ExprCallLemmas
 import HawkModel.Gen.OpTables
 /-!
 # Property C08 - an expression's value does not depend on where its operands are stored
@@ -12,6 +14,13 @@ All theorems hold for every float implementation (`FloatOps F`) and every `Ext` 
 comparison, matching, FLEXMAP setting).  The model (`HawkModel/Expr.lean`) follows the code with the repairs of
 this round applied (zero and minus-one divisor guards in the folder and the evaluator, `float \ integer` folding reading
 the float view: `patches/fold-idiv-flt-int`).
+
+The storage layer below the expressions (`HawkModel/ExprBlock.lean`, round 5): the flat frame of block-level locals
+as `parse_block` lays it out and `run_block0` resets it, proved to simulate lexically scoped locals for every program of
+the model language, every placement of the non-locals and every garbage left in the frame by earlier blocks, loop
+iterations and calls (`block_locals_scoped`, `block_frame_top`, `block_placement_independent`, `byref_block_call`,
+`fresh_local_reads_nil`); the dispatch tables and the block constants are generated (`ref_dispatch_matches`,
+`expr_dispatch_matches`, `block_tables_match`).
 
 Two clauses hold only with a side condition, and the condition is necessary (witness theorems below):
 * `fold_expr_error_partial`: a parse-time folding error is the run-time error of the folded operator
@@ -359,5 +368,175 @@ example : foldBinop (F := F) .mod (LitNode.mkInt INT_MIN) (LitNode.mkInt (-1)) =
 /-- the bare machine division has no value there -/
 example : cdiv INT_MIN (-1) = none ∧ cmod INT_MIN (-1) = none ∧ cmod 1 0 = none := by
   simp [cdiv, cmod, INT_MIN]
+
+/-! ## the storage layer: generated dispatch tables and block constants against the model (T) -/
+
+/-- every kind of variable reference of the model is served by the evaluator and the assigner the model transcribes
+for it: `__evaluator[type - HAWK_NDE_GRP]` of `eval_expression0` and the `switch (var->type)` of `do_assignment` -/
+theorem ref_dispatch_matches (r : Ref) :
+    (r.nde, r.evaluator) ∈ ndeEvaluator ∧ (r.nde, r.assigner) ∈ assignDispatch := by
+  cases r with
+  | plain b => cases b <;> simp only [Ref.nde, Ref.evaluator, Ref.assigner] <;> decide
+  | idx b k => cases b <;> simp only [Ref.nde, Ref.evaluator, Ref.assigner] <;> decide
+
+/-- every expression constructor of the model is dispatched to the evaluator transcribed in that case of `eval` -/
+theorem expr_dispatch_matches : ∀ p ∈ exprCtorDispatch, p ∈ ndeEvaluator := by decide
+
+/-- `run` and `compile` use the conditions, the loop bounds and the counters that `run_block0` and `parse_block` use:
+push when `nlcls > 0`, else reset when `nlcls != org_nlcls`, over `[outer_nlcls, outer_nlcls + org_nlcls)`;
+`org_nlcls` = locals declared in the block, `outer_nlcls` = size of `parse.lcls` at block entry,
+`nlcls` = `nlcls_max` for the outermost block and 0 for nested ones -/
+theorem block_tables_match :
+    blockConds = ["nlcls>0", "nlcls!=org_nlcls"] ∧ blockResetLo = "outer_nlcls" ∧
+    blockResetHi = ["outer_nlcls", "org_nlcls"] ∧
+    parseBlockFields = [("org_nlcls", "tmp-nlcls_outer"), ("outer_nlcls", "nlcls_outer"),
+                        ("nlcls", "hawk->parse.nlcls_max-nlcls_outer"), ("nlcls", "0")] ∧
+    parseBlockOuter = "HAWK_ARR_SIZE(hawk->parse.lcls)" := by decide
+
+/-! ## the storage layer: block-level locals in the flat frame (`parse_block` / `run_block0`) -/
+
+/-- BLOCK-LEVEL LOCALS.  Take any statement `s` of the model language (expression statements, sequences, nested blocks
+declaring locals, loops re-entering their body `n` times, conditionals) that stands in a parser context `ctx` the parser
+can build (`Chain`) and refers only to variables in scope (`WS`), any placement `ρ` of the non-local variables on named
+variables / globals / parameters / map and array elements (no aliasing, not in the frame), and ANY environment `env`
+that stores the scoped state `st` on the slots of the open blocks - the slots above them hold arbitrary garbage, the
+history of earlier blocks, iterations and calls.  Then running the parser's output on the flat frame (`run`: slots
+`outer_nlcls + i`, reset of `[outer_nlcls, outer_nlcls + org_nlcls)` on every entry) produces exactly the trace of
+expression values (or the error) of the lexically scoped semantics (`srun`: a fresh all-nil frame per block entry),
+and the final environment again stores the final scoped state. -/
+theorem block_locals_scoped (X : Ext F) (ρ : Nat → Ref) (hρ : NoAlias ρ) (hoff : OffFrame ρ) (s : SStmt F)
+    (ctx : PCtx) (hc : Chain ctx) (hws : s.WS ctx) (env : Env F) (st : SState F) (tr : List (Val F))
+    (h : BRel ρ ctx env st) :
+    match srun X s (st, tr) with
+    | .ok (st', tr') => ∃ env', run X (compile ρ s ctx) (env, tr) = .ok (env', tr') ∧ BRel ρ ctx env' st'
+    | .error err => run X (compile ρ s ctx) (env, tr) = .error err := by
+  have := block_sim X ρ hρ hoff s ctx hc hws env st tr h
+  cases hres : srun X s (st, tr) with
+  | error err => rw [hres] at this; exact this
+  | ok p => obtain ⟨st', tr'⟩ := p; rw [hres] at this; exact this
+
+/-- EVALUATION COMMUTES WITH PLACEMENT, FOR PROGRAMS.  The same source statement, with its non-local variables placed by
+two different placements `ρ`, `ρ'` (named variables, globals, parameters, map / array elements, in any mixture), run
+from two environments that store the same scoped state - each with its own garbage in the dead frame slots - yields
+the same trace of expression values and final environments that again store one and the same scoped state; or both
+runs fail with the same error. -/
+theorem block_placement_independent (X : Ext F) (ρ ρ' : Nat → Ref) (hρ : NoAlias ρ) (hoff : OffFrame ρ)
+    (hρ' : NoAlias ρ') (hoff' : OffFrame ρ') (s : SStmt F) (ctx : PCtx) (hc : Chain ctx) (hws : s.WS ctx)
+    (env env' : Env F) (st : SState F) (tr : List (Val F)) (h : BRel ρ ctx env st) (h' : BRel ρ' ctx env' st) :
+    (∃ e₁ e₁' tr' st', run X (compile ρ s ctx) (env, tr) = .ok (e₁, tr') ∧
+        run X (compile ρ' s ctx) (env', tr) = .ok (e₁', tr') ∧ BRel ρ ctx e₁ st' ∧ BRel ρ' ctx e₁' st') ∨
+    (∃ err, run X (compile ρ s ctx) (env, tr) = .error err ∧ run X (compile ρ' s ctx) (env', tr) = .error err) := by
+  have a := block_sim X ρ hρ hoff s ctx hc hws env st tr h
+  have b := block_sim X ρ' hρ' hoff' s ctx hc hws env' st tr h'
+  cases hres : srun X s (st, tr) with
+  | error err =>
+    rw [hres] at a b
+    exact Or.inr ⟨err, a, b⟩
+  | ok p =>
+    obtain ⟨st', tr'⟩ := p
+    rw [hres] at a b
+    obtain ⟨e1, a1, a2⟩ := a
+    obtain ⟨e2, b1, b2⟩ := b
+    exact Or.inl ⟨e1, e2, tr', st', a1, b1, a2, b2⟩
+
+/-- THE OUTERMOST BLOCK.  The body block of a function / BEGIN / action with `k` locals of its own, compiled with
+`nlcls = nlcls_max`: from ANY environment that stores the non-locals `σ` (whatever the stack held before - a previous
+call of the same function included), the run gives the trace (or error) of the scoped semantics started with no frame
+at all, and the non-locals end up with the scoped run's final values. -/
+theorem block_frame_top (X : Ext F) (ρ : Nat → Ref) (hρ : NoAlias ρ) (hoff : OffFrame ρ) (k : Nat) (body : SStmt F)
+    (hws : body.WS [(0, k)]) (env : Env F) (σ : Store F) (tr : List (Val F)) (h : Holds ρ env σ) :
+    match srun X (.blk k body) ((σ, []), tr) with
+    | .ok (st', tr') => ∃ env', run X (compileTop ρ k body) (env, tr) = .ok (env', tr') ∧ Holds ρ env' st'.1
+    | .error err => run X (compileTop ρ k body) (env, tr) = .error err := by
+  have := block_top_sim X ρ hρ hoff k body hws env σ tr h
+  cases hres : srun X (.blk k body) ((σ, []), tr) with
+  | error err => rw [hres] at this; exact this
+  | ok p => obtain ⟨st', tr'⟩ := p; rw [hres] at this; exact this
+
+/-- BY-REFERENCE PARAMETERS OF A FUNCTION WITH BLOCK-LEVEL LOCALS.  Calling `function f(&p0, .., &p(n-1)) BODY`, where
+BODY is any block program over the parameters and its own (nested) locals, with the variables placed by `π` as arguments
+(caller's locals included), from a stack whose region above the caller's frame holds ANY `garbage` (earlier calls of the
+same or other functions): the call yields the trace (or error) of the scoped semantics of BODY over the bare slots,
+afterwards the argument variables hold the final parameter values (copy-back), every other slot's variable is unchanged. -/
+theorem byref_block_call (X : Ext F) (π : Nat → Ref) (hπ : NoAlias π) (n k : Nat) (body : SStmt F)
+    (hws : body.WS [(0, k)]) (garbage : Nat → Cell F)
+    (env : Env F) (σ : Store F) (tr : List (Val F)) (h : Holds π env σ) (hnil : ∀ i, n ≤ i → σ i = .nil) :
+    match srun X (.blk k body) ((σ, []), tr) with
+    | .ok (st', tr') => ∃ env',
+        evalCallByRefBlk X ((List.range n).map π) (compileTop argπ k body) garbage env tr = .ok (env', tr') ∧
+        (∀ i, i < n → Good env' (π i) (st'.1 i)) ∧ (∀ i, n ≤ i → Good env' (π i) (σ i))
+    | .error err =>
+        evalCallByRefBlk X ((List.range n).map π) (compileTop argπ k body) garbage env tr = .error err :=
+  byref_block_sim X π hπ n k body hws garbage env σ tr h hnil
+
+/-- its hypotheses are satisfiable: two arguments placed on globals, a body with a nested block and a loop -/
+example : NoAlias (fun i => Ref.plain (.gbl i)) ∧
+    Holds (fun i => Ref.plain (.gbl i))
+      ({ named := fun _ => none, gbl := fun i => .sc (if i < 2 then .int 7 else .nil), lcl := fun _ => .sc .nil,
+         arg := fun _ => .sc .nil } : Env F) (fun i => if i < 2 then .int 7 else .nil) ∧
+    (∀ i, 2 ≤ i → (fun i => if i < 2 then Val.int 7 else (.nil : Val F)) i = .nil) ∧
+    (SStmt.rep 2 (.blk 1 (.ex (.asg .plus (.oth 0) (.incpst .plus (.loc 0 0))))) : SStmt F).WS [(0, 1)] := by
+  refine ⟨fun i j h => by simp [Indep, Ref.base, h], fun i => by simp [Good, Env.peek, Kinded, Env.top], ?_, ?_⟩
+  · intro i hi
+    have : ¬ i < 2 := by omega
+    simp [this]
+  · simp only [SStmt.WS, Expr.AllRefs, InScope, lclsSize]
+    exact ⟨trivial, ⟨1, 1, by simp, by omega⟩⟩
+
+/-- A FRESH LOCAL IS NIL, WHATEVER THE HISTORY.  Entering a nested block with `k` locals and reading its `idx`-th local
+yields nil on the flat frame - for every context, every enclosing state and every garbage in the slot. -/
+theorem fresh_local_reads_nil (X : Ext F) (ρ : Nat → Ref) (hρ : NoAlias ρ) (hoff : OffFrame ρ) (ctx : PCtx)
+    (hc : Chain ctx) (k idx : Nat) (hi : idx < k) (env : Env F) (st : SState F) (tr : List (Val F))
+    (h : BRel ρ ctx env st) :
+    ∃ env', run X (compile ρ (.blk k (.ex (.var (.loc 0 idx)))) ctx) (env, tr) = .ok (env', tr ++ [.nil]) ∧
+      BRel ρ ctx env' st := by
+  have hws : (SStmt.blk k (.ex (.var (.loc 0 idx))) : SStmt F).WS ctx := by
+    simp only [SStmt.WS, Expr.AllRefs, InScope]
+    exact ⟨lclsSize ctx, k, by simp, hi⟩
+  have := block_sim X ρ hρ hoff _ ctx hc hws env st tr h
+  have hs : srun X (.blk k (.ex (.var (.loc 0 idx)))) (st, tr) = .ok (st, tr ++ [.nil]) := by
+    obtain ⟨σ, fr⟩ := st
+    simp [srun, eval, scopedStorage, nilFrame, bind, Except.bind, pure, Except.pure]
+  rw [hs] at this
+  exact this
+
+/-- the bounds of the reset loop matter: with `outer_nlcls = org_nlcls = 1`, bounds `[outer, org)` touch nothing (the
+garbage 40 stays in slot 1), the bounds `[outer, outer + org)` of `run_block0` clear it -/
+theorem reset_range_witness : ∃ env : Env F, env.lcl 1 = .sc (.int 40) ∧
+    (resetLcls env 1 1).lcl 1 = .sc (.int 40) ∧ (resetLcls env 1 (1 + 1)).lcl 1 = .sc .nil :=
+  ⟨{ named := fun _ => none, gbl := fun _ => .sc .nil, lcl := fun _ => .sc (.int 40), arg := fun _ => .sc .nil },
+   rfl, by simp [resetLcls], by simp [resetLcls]⟩
+
+/-- the hypotheses of `block_locals_scoped` are satisfiable by a non-trivial state: two open blocks with one local each
+(values 7 and "a"), the non-locals on globals, and garbage (40) in every frame slot above the open blocks -/
+example (σ : Store F) :
+    NoAlias (fun i => Ref.plain (.gbl i)) ∧ OffFrame (fun i => Ref.plain (.gbl i)) ∧ Chain [(1, 1), (0, 1)] ∧
+    (SStmt.seq (.blk 2 (.ex (.asg .plus (.loc 0 1) (.var (.loc 1 0))))) (.rep 3 (.blk 1 (.ex (.incpst .plus (.loc 0 0)))))
+      : SStmt F).WS [(1, 1), (0, 1)] ∧
+    BRel (fun i => Ref.plain (.gbl i)) [(1, 1), (0, 1)]
+      ({ named := fun _ => none, gbl := fun i => .sc (σ i),
+         lcl := fun j => if j = 0 then .sc (.str "a") else if j = 1 then .sc (.int 7) else .sc (.int 40),
+         arg := fun _ => .sc .nil } : Env F)
+      (σ, [fun _ => .int 7, fun _ => .str "a"]) := by
+  refine ⟨fun i j h => by simp [Indep, Ref.base, h], fun i n => by simp [Ref.base], ⟨rfl, rfl, trivial⟩, ?_, rfl, ?_⟩
+  · simp only [SStmt.WS, Expr.AllRefs, InScope, lclsSize]
+    refine ⟨⟨⟨2, 2, by simp, by omega⟩, ⟨1, 1, by simp, by omega⟩⟩, ⟨2, 1, by simp, by omega⟩⟩
+  · intro r hr
+    cases r with
+    | oth i => simp [resolve, den, Good, Env.peek, Kinded, Env.top]
+    | loc up idx =>
+      obtain ⟨o, k, hk, hi⟩ := hr
+      match up, hk with
+      | 0, hk =>
+        simp at hk; obtain ⟨h1, h2⟩ := hk; subst h1; subst h2
+        have : idx = 0 := by omega
+        subst this
+        simp [resolve, slotOf, den, good_lcl]
+      | 1, hk =>
+        simp at hk; obtain ⟨h1, h2⟩ := hk; subst h1; subst h2
+        have : idx = 0 := by omega
+        subst this
+        simp [resolve, slotOf, den, good_lcl]
+      | n + 2, hk => simp at hk
 
 end Hawk.Expr
